@@ -21,6 +21,7 @@ type C13Line struct {
 	Name   string   `json:"name,omitempty"`
 	Define bool     `json:"define,omitempty"`
 	Values []string `json:"values,omitempty"`
+	Tab    bool     `json:"tab,omitempty"` // values separated by tabs
 }
 
 type C13Case struct {
@@ -37,7 +38,11 @@ func (c C13Case) Text() string {
 			if l.Define {
 				op = "="
 			}
-			fmt.Fprintf(&b, "@{%s} %s %s\n", l.Name, op, strings.Join(l.Values, " "))
+			sep := " "
+			if l.Tab {
+				sep = "\t" // values may be separated by tabs
+			}
+			fmt.Fprintf(&b, "@{%s} %s%s%s\n", l.Name, op, sep, strings.Join(l.Values, sep))
 		} else {
 			b.WriteString(l.Text + "\n")
 		}
@@ -138,7 +143,8 @@ func genC13Case(t *rapid.T) C13Case {
 		case "include":
 			return C13Line{Kind: "include", Text: fmt.Sprintf("include if exists <verif-absent/%d>", i%3)} // the same line may come twice
 		case "alias":
-			return C13Line{Kind: "alias", Text: fmt.Sprintf("alias /al%d -> /ar%d,", i, i)}
+			tail := pick(t, "aliastail", []string{"", "", " # see 1) in the notes", " # a } brace", " # (x"})
+			return C13Line{Kind: "alias", Text: fmt.Sprintf("alias /al%d -> /ar%d,%s", i, i, tail)}
 		}
 		return C13Line{Kind: "comment", Text: "#" + pick(t, "ctext", []string{" apparmor.d", " x", "", " @{a} = /commented", " @{exec_path} += /nope"})}
 	}
@@ -146,7 +152,7 @@ func genC13Case(t *rapid.T) C13Case {
 		lines = append(lines, other(i))
 	}
 	for _, di := range order {
-		lines = append(lines, C13Line{Kind: "var", Name: defs[di].name, Define: true, Values: defs[di].def})
+		lines = append(lines, C13Line{Kind: "var", Name: defs[di].name, Define: true, Values: defs[di].def, Tab: chance(t, "tabs", 6)})
 		if chance(t, "interleave", 3) {
 			lines = append(lines, other(100+di))
 		}
